@@ -10,7 +10,10 @@
 // after the final clean-up, nothing panicked.  The abstract trace (closing bits and channel
 // states of both ends, listing, listener / server done, live client goroutines) is emitted as
 // a Coq case and compared with the Gallina model (Model/Close.v) on the same scenario.
-// The racing-pair stress through the real receiveSingle is search only.
+// The racing groups through the real receiveSingle / Session.Close (stress) are compared with
+// the model too (one group under the round-robin schedule: no fault, closed, released,
+// unlisted).  A child that dies is an observation: the failure key names the kind of the
+// panic and the first function of package c2 on the panicking stack.
 package main
 
 import (
@@ -629,6 +632,11 @@ func gen(r *vh.Rand, tier string) []Scn {
 	add(Scn{Kind: "noclient", Instant: "before-registration", Phases: [][]int{{cLsnClose}}, Compare: false})
 	add(Scn{Kind: "noclient", Instant: "before-registration", Phases: [][]int{{cSrvClose}}, Compare: false})
 	add(Scn{Kind: "noclient", Instant: "before-registration", Phases: [][]int{{cSrvClose, cSrvClose, cLsnClose, cLsnClose}}, Compare: false})
+	// Close right after Listen (the event thread may not have started / not have taken the listener yet)
+	for i := 0; i < 6; i++ {
+		add(Scn{Kind: "noclient", Instant: "before-registration", Phases: [][]int{{cSrvClose}}, Compare: false})
+		add(Scn{Kind: "noclient", Instant: "before-registration", Phases: [][]int{{cSrvClose, cSrvClose, cLsnClose, cLsnClose}}, Compare: false})
+	}
 	// grid: every instant x every source x multiplicity 1, 2, 8
 	srcs := [][]int{{cClientClose}, {cServerClose}, {cCtxCancel}, {cRemove}, {cClientClose, cServerClose}, {cClientClose, cCtxCancel}}
 	for _, in := range instants {
